@@ -88,6 +88,10 @@ package lib
 //@ ghost func RuneStart(s string, k int) int
 //@ axiom runestart-0: forall s string {RuneCount(s)} :: RuneStart(s, 0) == 0 && 0 <= RuneCount(s) && RuneCount(s) <= len(s) && RuneStart(s, RuneCount(s)) == len(s)
 //@ axiom runestart-step: forall s string, k int {RuneStart(s, k)} :: 0 <= k && k < RuneCount(s) ==> RuneStart(s, k+1) == RuneStart(s, k) + widthat(s, RuneStart(s, k)) && RuneStart(s, k) < len(s) && k <= RuneStart(s, k)
+// strict monotonicity makes RuneStart injective on 0..RuneCount(s); RuneIdxAt is its inverse there (a definitional
+// extension: it exists whenever runestart-mono holds), which gives injectivity with a single-term trigger
+//@ ghost func RuneIdxAt(s string, b int) int
+//@ axiom runestart-inv: forall s string, k int {RuneStart(s, k)} :: 0 <= k && k <= RuneCount(s) ==> RuneIdxAt(s, RuneStart(s, k)) == k
 //@ axiom runestart-mono: forall s string, j int, k int {RuneStart(s, j), RuneStart(s, k)} :: 0 <= j && j < k && k <= RuneCount(s) ==> RuneStart(s, j) < RuneStart(s, k)
 // the k-th rune of s
 //@ spec func RuneAtIdx(s string, k int) rune = runeat(s, RuneStart(s, k))
